@@ -5,6 +5,7 @@ import (
 	"flag"
 	"fmt"
 	"os"
+	"runtime/debug"
 	"sort"
 	"syscall"
 	"time"
@@ -19,15 +20,23 @@ type check struct {
 	// Replay re-judges one recorded case; returns the violations it (still) shows.
 	Replay func(ctx *core.Ctx, c json.RawMessage)
 	Budget map[string]time.Duration
+	// Shards > 0: the engine owns process-wide state (one controller per process),
+	// so the work is split over that many worker processes (VERIF_SHARD=i/n) and merged
+	Shards int
 }
 
 var checks = map[string]*check{}
+
+// extraCommands: sub-commands registered by build-flavour-specific files
+var extraCommands = map[string]func(args []string){}
 
 func main() {
 	// the sandbox has no memory limit: cap the address space so that a runaway
 	// allocation in the code under test ends this process, not the machine
 	lim := syscall.Rlimit{Cur: 48 << 30, Max: 48 << 30}
 	syscall.Setrlimit(syscall.RLIMIT_AS, &lim)
+	// a runaway recursion in the code under test should die quickly (default limit: 1 GB of stack)
+	debug.SetMaxStack(256 << 20)
 	if len(os.Args) < 2 {
 		fmt.Fprintln(os.Stderr, "usage: harness run|replay|list ...")
 		os.Exit(2)
@@ -61,9 +70,16 @@ func main() {
 		if b == 0 {
 			b = 10 * time.Minute
 		}
+		if ck.Shards > 0 && os.Getenv("VERIF_SHARD") == "" {
+			runSharded(*prop, ck, *tier, *out, b)
+			return
+		}
 		ctx := core.NewCtx(*prop, ck.Engine, *tier, b)
 		core.Watchdog(30*time.Second, *out+".hang")
 		ck.Run(ctx, *tier)
+		if os.Getenv("VERIF_SHARD") != "" {
+			ctx.ExportStates(*out + ".states")
+		}
 		ctx.Finish(*out)
 	case "replay":
 		fs := flag.NewFlagSet("replay", flag.ExitOnError)
@@ -100,6 +116,10 @@ func main() {
 		}
 		fmt.Println("REPLAY-OK: the recorded case no longer violates", *prop)
 	default:
+		if f := extraCommands[os.Args[1]]; f != nil {
+			f(os.Args[2:])
+			return
+		}
 		fmt.Fprintln(os.Stderr, "unknown command", os.Args[1])
 		os.Exit(2)
 	}
